@@ -246,6 +246,14 @@ def _subscript_stores(f: Func):
     return out
 
 
+def _nconds(prog, f: Func, node, typer=None, expand=True):
+    """facts.node_conditions with boolean conditional expressions written as and / or and split into their conjuncts"""
+    out = []
+    for t, p in facts.node_conditions(prog, f, node, typer, expand=expand):
+        out += facts.split_conj(U.bool_ifexp(t), p)
+    return out
+
+
 def _calculator_ctors(cg, entry: Func):
     """constructor calls in the entry whose object gets a method called (the calculator), not result wrappers like
     _ImmutableTaskList(..)"""
@@ -895,7 +903,7 @@ def _leaf_arcs(ctx, R: Roles, model, o):
     task_p = ins.params[1] if len(ins.params) > 1 else None
     model['task_param'] = task_p
     cn = cfg.node_containing(call)
-    conds = facts.node_conditions(prog, ins, call, ctx.typer)
+    conds = _nconds(prog, ins, call, ctx.typer)
     leaf_ok = None
     for t, p in conds:
         lt = leaf_test(t, p)
@@ -912,7 +920,7 @@ def _leaf_arcs(ctx, R: Roles, model, o):
         for owner in (R.init, ins):
             for c in R.calls_to(owner, ins):
                 arg = c.args[0] if c.args else None
-                cs = facts.node_conditions(prog, owner, c, ctx.typer)
+                cs = _nconds(prog, owner, c, ctx.typer)
                 if any((lambda lt: lt and lt[1] and arg is not None and same(lt[0], arg))(leaf_test(t, p)) for t, p in cs):
                     continue
                 if owner is R.init and model.get('end_none') and any(
@@ -1015,7 +1023,7 @@ def _leaf_arcs(ctx, R: Roles, model, o):
             fors_ = icfg.enclosing_fors(icfg.node_containing(c))
             lv0 = fors_[-1].target.id if fors_ and isinstance(fors_[-1].target, ast.Name) else None
             atoms_ = []
-            for t, p in facts.node_conditions(prog, init, c, ctx.typer, expand=False):
+            for t, p in _nconds(prog, init, c, ctx.typer, expand=False):
                 atoms_ += facts.split_conj(t, p)
             if lv0 is None or not any((lambda nt: nt and isinstance(nt[0], ast.Name) and nt[0].id == end_p and not nt[1])(none_test(t, p))
                                       for t, p in atoms_):
@@ -1067,7 +1075,7 @@ def _leaf_arcs(ctx, R: Roles, model, o):
             continue
         lv_ = fors[-1].target.id
         cs = []
-        for t, p in facts.node_conditions(prog, init, c, ctx.typer, expand=False):
+        for t, p in _nconds(prog, init, c, ctx.typer, expand=False):
             tn_ = icfg.node_containing(t)
             try:
                 tx_ = exi.expand(t, tn_, stop={lv_}) if tn_ is not None else t      # `flag = end_date is not None` hoisted
@@ -1620,7 +1628,7 @@ def _inherit_registered(ctx, R: Roles, model, o_inh, o_reg):
     # nesting instead of guard clauses: `if len(task.children) == 0 and task.id not in self.<tasks>: <body>`
     nested_leaf = False
     nested_memo = None
-    for t, p in facts.node_conditions(prog, ins, call, ctx.typer, expand=False):
+    for t, p in _nconds(prog, ins, call, ctx.typer, expand=False):
         for a_, ap_ in facts.split_conj(t, p):
             lt = leaf_test(a_, ap_)
             if lt and isinstance(lt[0], ast.Name) and lt[0].id == task_p and lt[1]:
@@ -1683,7 +1691,7 @@ def _inherit_registered(ctx, R: Roles, model, o_inh, o_reg):
             for c in R.calls_to(owner, ins):
                 arg = c.args[0] if c.args else None
                 cs_ = []
-                for t, p in facts.node_conditions(prog, owner, c, ctx.typer, expand=False):
+                for t, p in _nconds(prog, owner, c, ctx.typer, expand=False):
                     cs_ += facts.split_conj(t, p)
                 if owner is R.init and model.get('end_none') and any(
                         (lambda nt: nt and isinstance(nt[0], ast.Name) and nt[0].id == model.get('end_param') and not nt[1])(
